@@ -174,6 +174,8 @@ func (it *Interp) intrinsic(name string, fn *ssa.Function, a []Val) Val {
 		return it.newCtx(false)
 	case "Codec":
 		return IfaceV{V: &Native{Kind: "codec"}}
+	case "Subspace":
+		return &Native{Kind: "subspace", Data: &SubspaceData{vals: map[string]Val{}}}
 	case "StoreKey":
 		return IfaceV{T: nil, V: &Native{Kind: "storekey", Tag: it.cstr(a[0], "store key name")}}
 	case "StoreWrites":
